@@ -24,7 +24,7 @@ from ..refpeg import RefPeg
 from .. import corpus, pegcheck, modelcmp
 from ..pegcheck import Formulas, real_load
 from . import c01
-from ..gram import S, Asg, Rule, Ref, Str
+from ..gram import S, Asg, Rule, Ref, Str, Sup
 
 PROP = 'C22'
 WS_ALL = [' ', '\t', '\n', '\r']
@@ -44,6 +44,13 @@ EXTRA = [
     corpus.G('single-match-rule-ws',
              [Rule('M', S(Asg('a', '=', Ref('ID')), Ref('Sep'), Asg('b', '=', Ref('ID')))),
               Rule('Sep', Str(':'), ws='\n')], tags=['ws']),
+    # a *suppressed* reference to a sequence rule that carries whitespace modifiers
+    corpus.G('suppressed-ref-to-noskipws-rule',
+             [Rule('M', S(Asg('a', '=', Ref('ID')), Sup(Ref('Arrow')), Asg('b', '=', Ref('ID')))),
+              Rule('Arrow', S(Str('-'), Str('>')), skipws=False)], tags=['ws']),
+    corpus.G('suppressed-ref-to-ws-rule',
+             [Rule('M', S(Asg('a', '=', Ref('ID')), Sup(Ref('Arrow')), Asg('b', '=', Ref('ID')))),
+              Rule('Arrow', S(Str('-'), Str('>')), ws='\t')], tags=['ws']),
     # escape sequences in the ws modifier: \r and \t together with a blank
     corpus.G('ws-escapes-cr-tab',
              [Rule('M', S(Asg('ps', '+=', Ref('P')), Str('e'))),
